@@ -151,6 +151,7 @@ Print Assumptions C10_handler_iff_unblocked.
 
 Theorem C10_handler_once : forall cfg h mc req,
   sp_target cfg req <> TWellKnown ->
+  dp_observe (sp_target cfg req) (sp_req' cfg req) <> ObsBlocked ->
   dp_calls (sp_handler_out cfg h mc req) =
   [mkHreq (dp_target_rid (sp_target cfg req)) (m_code req) (sp_req' cfg req) (dp_query cfg (m_opts req))].
 Proof. exact handler_call. Qed.
@@ -190,10 +191,14 @@ Theorem C10_lookup_wellknown : forall cfg code,
 Proof. exact lookup_wellknown. Qed.
 Print Assumptions C10_lookup_wellknown.
 
-(* ---- what the handler sets is what is sent, subject to No-Response and multicast rules ---- *)
+(* ---- what the handler sets is what is sent, subject to No-Response and multicast rules.
+   dp_resp_opts: the handler's coap_add_option() calls in order (after the Observe option of a
+   new registration on an observable resource); dp_sent_opts: Block1 off an error response ---- *)
 Theorem C10_what_is_set_is_sent : forall cfg h mc req,
   (m_type req = NR_CON \/ m_type req = NR_NON) ->
   (match sp_target cfg req with TRes _ | TUnknown _ _ => True | _ => False end) ->
+  let obs := dp_observe (sp_target cfg req) (sp_req' cfg req) in
+  obs <> ObsBlocked ->
   let i := mkHreq (dp_target_rid (sp_target cfg req)) (m_code req) (sp_req' cfg req)
                   (dp_query cfg (m_opts req)) in
   let r := h i in
@@ -207,7 +212,8 @@ Theorem C10_what_is_set_is_sent : forall cfg h mc req,
   | NrEmptyAck => [EvTx false (dp_empty NR_ACK (m_mid req))]
   | NrSendAsIs =>
       [EvTx false (mkMsg (dp_resp_type req) (hr_code r) (m_mid req) (m_token req)
-                         (dp_sent_opts false (hr_code r) true (hr_opts r)) (hr_payload r))]
+                         (dp_sent_opts false (hr_code r) true (dp_resp_opts obs (hr_code r) (hr_opts r)))
+                         (hr_payload r))]
   end.
 Proof. exact handler_out_is. Qed.
 Print Assumptions C10_what_is_set_is_sent.
